@@ -246,6 +246,21 @@ def run_traced(dd, groups, case, acc, wd):
         for c in sorted(lower - {'BinaryReduction'} - seen['TaskGenerator']):
             acc.violation(f'dropped-though-on/{c}', f'traced run with options {seq}: no TaskGenerator ever got enabled mutator {c}',
                           dict(case, kind='traced'))
+        # ddmin repeats its passes until a whole round reduces nothing: that last round (and
+        # every other) starts with the first mutator again and must schedule every enabled one
+        names = [e['mutators'][0] for e in r.trace if e['e'] == 'G' and e['kind'] == 'TaskGenerator' and e['mutators']]
+        rounds = []
+        for i, n_ in enumerate(names):
+            if i == 0 or (n_ == names[0] and names[i - 1] != names[0]):
+                rounds.append(set())
+            rounds[-1].add(n_)
+        if len(rounds) >= 2:
+            acc.count('ddmin-runs-with-several-rounds')
+            missing = sorted(lower - {'BinaryReduction'} - rounds[-1])
+            if missing and not (lower - {'BinaryReduction'} - seen['TaskGenerator']):
+                acc.violation('dropped-in-last-ddmin-round/' + missing[0],
+                              f'traced run with options {seq}: ddmin round {len(rounds)} of {len(rounds)} scheduled '
+                              f'{len(rounds[-1])} mutators, not the enabled {missing[:4]}', dict(case, kind='traced'))
     return bool(seq)
 
 
